@@ -94,8 +94,7 @@ def run(sid, checks, tier="quick"):
         meta = json.load(f)
     checks = checks or [meta["property"]]
     d, wt = worktree()
-    backup = os.path.join(d, "evidence")
-    shutil.copytree(os.path.join(VERIF, "evidence"), backup)
+    # (runs with VERIF_REPO set write their evidence under replays/scratch-evidence, never into evidence/)
     try:
         ap = sh(["git", "-C", wt, "apply", "--whitespace=nowarn", os.path.join(out, "patch.diff")])
         if ap.returncode != 0:
@@ -111,8 +110,6 @@ def run(sid, checks, tier="quick"):
             if r.returncode == 2:
                 print(r.stdout[-1200:])
     finally:
-        shutil.rmtree(os.path.join(VERIF, "evidence"))
-        shutil.copytree(backup, os.path.join(VERIF, "evidence"))
         drop(d)
     with open(os.path.join(out, "meta.json"), "w") as f:
         json.dump(meta, f, indent=1)
